@@ -215,3 +215,45 @@ func CompareAndSwapPointer(p *unsafe.Pointer, o, n unsafe.Pointer) bool {
 	pt(unsafe.Pointer(p), vsched.OpRMW)
 	return atomic.CompareAndSwapPointer(p, o, n)
 }
+
+// And / Or (go1.23)
+func AndInt32(p *int32, m int32) int32 {
+	pt(unsafe.Pointer(p), vsched.OpRMW)
+	return atomic.AndInt32(p, m)
+}
+func OrInt32(p *int32, m int32) int32 {
+	pt(unsafe.Pointer(p), vsched.OpRMW)
+	return atomic.OrInt32(p, m)
+}
+func AndInt64(p *int64, m int64) int64 {
+	pt(unsafe.Pointer(p), vsched.OpRMW)
+	return atomic.AndInt64(p, m)
+}
+func OrInt64(p *int64, m int64) int64 {
+	pt(unsafe.Pointer(p), vsched.OpRMW)
+	return atomic.OrInt64(p, m)
+}
+func AndUint32(p *uint32, m uint32) uint32 {
+	pt(unsafe.Pointer(p), vsched.OpRMW)
+	return atomic.AndUint32(p, m)
+}
+func OrUint32(p *uint32, m uint32) uint32 {
+	pt(unsafe.Pointer(p), vsched.OpRMW)
+	return atomic.OrUint32(p, m)
+}
+func AndUint64(p *uint64, m uint64) uint64 {
+	pt(unsafe.Pointer(p), vsched.OpRMW)
+	return atomic.AndUint64(p, m)
+}
+func OrUint64(p *uint64, m uint64) uint64 {
+	pt(unsafe.Pointer(p), vsched.OpRMW)
+	return atomic.OrUint64(p, m)
+}
+func AndUintptr(p *uintptr, m uintptr) uintptr {
+	pt(unsafe.Pointer(p), vsched.OpRMW)
+	return atomic.AndUintptr(p, m)
+}
+func OrUintptr(p *uintptr, m uintptr) uintptr {
+	pt(unsafe.Pointer(p), vsched.OpRMW)
+	return atomic.OrUintptr(p, m)
+}
